@@ -76,6 +76,6 @@ type ProcResult struct {
 	// process (several ready select cases, map ranges without a canonical key order).
 	UnownedChoices int `json:"unowned_choices"`
 	// Stuck: a run ended with tasks waiting on channels nothing in the simulation serves (inconclusive).
-	Stuck string `json:"stuck,omitempty"`
-	Hot            [][]HotYield   `json:"hot,omitempty"`
+	Stuck string       `json:"stuck,omitempty"`
+	Hot   [][]HotYield `json:"hot,omitempty"`
 }
